@@ -111,6 +111,7 @@ def universe():
             out.add(f"{base}-r{rev - 1}")
         if base[-1].isdigit():
             out |= {base + "0", base + "1"}
+    out |= {"2-r0", "2-r00", "2-r01"}   # versions spelled with an explicit revision 0 (what a glob written as 2-r0* selects by text)
     ok = []
     for v in sorted(out):
         try:
@@ -136,10 +137,12 @@ def enum_pairs(seed):
         if op == "~" and "-r" in v:
             return None
         return atom(f"{op}cat/pkg-{v}{tail}")
-    atoms = [a for op in ALLOPS for v in (POOL if op else ["1"]) for a in [mk(op, v)] if a is not None]
+    atoms = [a for op in ALLOPS for v in (POOL if op else ["1"]) for a in [mk(op, v)] if a is not None] + [mk("=*", "2-r0")]
 
     def note(kind, a, b, detail, **extra):
-        if sum(1 for f in fails if f["model"]["kind"] == kind and f["model"].get("glob_prefix_continues_a_number") == extra.get("glob_prefix_continues_a_number")) < 3:
+        extra["glob_spelled_with_revision_0"] = any(x.op == "=*" and x.fullver.endswith("-r0") for x in (a, b))
+        cls_ = lambda m: (m["kind"], m.get("glob_prefix_continues_a_number"), m.get("glob_spelled_with_revision_0"))
+        if sum(1 for f in fails if cls_(f["model"]) == cls_(dict(extra, kind=kind))) < 3:
             fails.append({"model": dict({"kind": kind, "a": str(a), "b": str(b)}, **extra), "detail": detail})
     for a, b in itertools.product(atoms, repeat=2):
         cases += 1
@@ -189,4 +192,5 @@ def tasks():
 
 
 REPLAY = {}
-WITNESSES = {"glob_prefix_continues_a_number": lambda m: m.get("kind") == "incomplete" and bool(m.get("glob_prefix_continues_a_number"))}
+WITNESSES = {"glob_prefix_continues_a_number": lambda m: m.get("kind") == "incomplete" and bool(m.get("glob_prefix_continues_a_number")),
+             "glob_spelled_with_revision_0": lambda m: m.get("kind") in ("incomplete", "unwitnessed") and bool(m.get("glob_spelled_with_revision_0"))}
